@@ -269,6 +269,25 @@ def handle (line : String) : String :=
         showOpt (paramFromSpec d (updateParams ck spec))
       | _, _ => "bad-op"
     | _, _ => "bad-op"
+  | "reinject-nested" :: dflt :: ws =>
+    -- the entry of the saved parameter is defined inline inside another Parameter entry: update the outer one, then
+    -- rebuild the first inline `…_like` definition
+    match parseDT dflt, ws.splitOn "||" with
+    | some d, [a, b] =>
+      match fullJson a, fullJson b with
+      | some spec, some (.obj saved) =>
+        let ck := fun (i : String) => match saved.lookup "id" with
+          | some (.str j) => if i = j then some saved else none
+          | _ => none
+        match updateParams ck spec with
+        | .obj out =>
+          let inner := ["full_like", "zeros_like", "ones_like", "eye_like"].findSome? (fun k => out.lookup k)
+          match inner with
+          | some j => showOpt (paramFromSpec d j)
+          | none => "no-inline"
+        | _ => "bad-op"
+      | _, _ => "bad-op"
+    | _, _ => "bad-op"
   | ["tables"] =>
     let cs := TTGen.C17_StateKeys.classes.map (·.name)
     let ls := TTGen.C17_StateKeys.loops.map (·.name)
